@@ -67,7 +67,14 @@ pub fn broker_acks(sys: &Sys, with_fail: bool, tagged: bool) -> Vec<Ev> {
 pub fn broker_acks_ext(sys: &Sys, with_fail: bool, tagged: bool, with_nomatch: bool) -> Vec<Ev> {
     let mut evs = vec![];
     for i in 0..sys.m.ops.len() {
-        let tag = if tagged { format!("r{}", i) } else { String::new() };
+        let tag = if !tagged {
+            String::new()
+        } else if sys.params["longtag"].as_bool().unwrap_or(false) {
+            // (the acknowledgement's properties then take more than 127 bytes: two-byte Property Length)
+            format!("r{}{}", i, "L".repeat(130))
+        } else {
+            format!("r{}", i)
+        };
         if let Some(p) = sys.ack_for(i, 0, &tag) {
             evs.push(Ev::Deliver(p));
             if with_fail {
